@@ -83,6 +83,14 @@ pub fn hostpanic_key(msg: &str, loc: &str) -> String {
     let file = file.trim_start_matches("/repo/");
     // type-variable numbering and similar digits are not part of the call site's identity
     let msg: String = msg.chars().filter(|c| !c.is_ascii_digit()).collect();
+    // symbols are printed with their address: `Pointer { addr: x.., metadata:  }:name@_`
+    let msg = if let Some(i) = msg.find("`Pointer {") {
+        let rest = &msg[i + 1..];
+        let end = rest.find('`').map(|e| i + 1 + e + 1).unwrap_or(msg.len());
+        format!("{}`_`{}", &msg[..i], &msg[end..])
+    } else {
+        msg
+    };
     format!("hostpanic:{}@{}", msg, file)
 }
 
